@@ -1,14 +1,23 @@
 ---------------------------- MODULE PersistTrace ----------------------------
 (* Code -> spec direction for C14.  The harness executes histories
-   run / write_env (with a crash injected after k bytes of the j-th file) /
-   exit / fault / read_env / Env.from_file on the real code and logs one
-   event per Persist action, together with what it observed:
+   run / write_env (with a crash injected after k bytes of one file) /
+   exit / fault / read_env / Env.from_file -- directly, or as sessions of
+   `RunCommand().execute` -- on the real code and logs one event per Persist
+   action, together with what it observed:
       files   the classification of every task's file after the event
       raised, env / present, status, ver   the outcome of a read.
-   Every event is matched against the corresponding action of Persist; the
-   outcome of a read is NOT computed by the specification here but taken from
-   the log, and the clauses of the property are evaluated on it.  The verdict
-   is total: <<trace id, step, clause>> of every failing clause is collected. *)
+   Every event is matched against the corresponding action of Persist; what
+   Persist leaves open (order of the entries, writing in place or through a
+   temporary file, skipping or replacing an unopenable destination) is
+   resolved by the log.  The outcome of a read is NOT computed by the
+   specification here but taken from the log, and the clauses of the property
+   are evaluated on it.  Where the observed files are not the ones Persist
+   implies, the clause "Files" is recorded (a deviation from the model of the
+   files, not a violation of the property) and the model's files are replaced
+   by the observed ones, so that the reads that follow are judged on the files
+   that were really there and on the history of what was written (lastFull).
+   The verdict is total: <<trace id, step, clause>> of every failing clause is
+   collected. *)
 EXTENDS Integers, Sequences, FiniteSets, TLC, Json, IOUtils
 
 CONSTANT None
@@ -19,13 +28,17 @@ NEvents == Len(Events)
 Tasks == 1 .. Data.ntasks
 Statuses == {"WAITING", "PENDING", "DONE", "FAILED", "SKIPPED"}
 MaxVer == 1000000  MaxFaults == 1000000  MaxCrashes == 1000000
-FaultKinds == {"absent", "empty", "garbage", "dir", "unreadable"}
+FaultKinds == {"absent", "empty", "partial", "garbage", "dir", "unreadable"}
+Modes == {"inplace", "keep"}
 
 VARIABLES mem, file, queue, w, nver, nfault, ncrash, lastRead, lastOne, lastFull, intact, act
 P == INSTANCE Persist
 
-VARIABLE i
-tvars == <<mem, file, queue, w, nver, nfault, ncrash, lastRead, lastOne, lastFull, intact, act, i>>
+VARIABLES i,       \* index of the next event
+          sync,    \* the observed files of event i-1 still have to replace the model's
+          ofile    \* the files as last observed
+pvars == <<mem, file, queue, w, nver, nfault, ncrash, lastRead, lastOne, lastFull, intact, act>>
+tvars == <<mem, file, queue, w, nver, nfault, ncrash, lastRead, lastOne, lastFull, intact, act, i, sync, ofile>>
 
 (* the verdict is accumulated outside the state (TLCSet/TLCGet, one worker): a state that carried
    thousands of failing steps would have to be fingerprinted again at every step *)
@@ -34,6 +47,7 @@ Record(new) == IF new = {} THEN TRUE ELSE TLCSet(1, TLCGet(1) \cup new)
 Set(s) == {s[k] : k \in DOMAIN s}
 ObsEnv(e) == {[t |-> x.t, status |-> x.status, ver |-> x.ver] : x \in Set(e.env)}
 ObsFile(f) == [kind |-> f[1], status |-> f[2], ver |-> f[3]]
+ObsFiles(e) == [t \in Tasks |-> ObsFile(e.files[t])]
 
 (* read_env as observed: the result comes from the log; the environment of the
    new process is what was returned (nothing when the read raised) *)
@@ -59,7 +73,7 @@ TReadOne(e) ==
 TReset ==
    /\ mem' = [t \in Tasks |-> P!NoEntry]
    /\ file' = [t \in Tasks |-> P!Blank("absent")]
-   /\ queue' = <<>> /\ w' = None
+   /\ queue' = {} /\ w' = None
    /\ nver' = 1 /\ nfault' = 0 /\ ncrash' = 0
    /\ lastRead' = P!NoRead /\ lastOne' = P!NoOne
    /\ lastFull' = [t \in Tasks |-> P!NoFull]
@@ -69,9 +83,10 @@ TReset ==
 Apply(e) ==
    CASE e.op = "reset"   -> TReset
      [] e.op = "run"     -> P!Run(e.t, e.status, e.dir) /\ act'.ver = e.ver
-     [] e.op = "start"   -> P!StartWrite(e.order)
-     [] e.op = "skip"    -> P!Skip /\ act'.t = e.t
-     [] e.op \in {"begin", "blocked"} -> P!BeginWrite /\ act'.op = e.op /\ act'.t = e.t
+     [] e.op = "start"   -> P!StartWrite(Set(e.order))
+     [] e.op = "skip"    -> P!Skip(e.t)
+     [] e.op = "begin"   -> P!BeginWrite(e.t, e.mode)
+     [] e.op = "blocked" -> P!BeginWrite(e.t, "blocked")
      [] e.op = "chunk"   -> P!WriteChunk /\ act'.t = e.t
      [] e.op = "end"     -> P!EndWrite /\ act'.t = e.t
      [] e.op \in {"crash", "exit"} -> P!Crash /\ act'.op = e.op
@@ -81,6 +96,12 @@ Apply(e) ==
 
 (* the events inside one write_env call are not observed one by one *)
 FilesMatch(e) == e.seen => \A t \in Tasks : file'[t] = ObsFile(e.files[t])
+
+(* a task without output directory is never written: its file, as observed at the end of a write_env call,
+   is what was observed before the call *)
+NoDirUntouched(e) ==
+   (e.seen /\ e.op \in {"skip", "end", "blocked", "crash", "exit"})
+      => \A t \in Tasks : (mem[t].present /\ ~mem[t].dir) => ObsFile(e.files[t]) = ofile[t]
 
 (* clauses evaluated in the state reached by the event *)
 Failing(e) ==
@@ -94,26 +115,39 @@ Failing(e) ==
     ELSE IF e.op = "readone" THEN {c \in {"One"} : ~(P!C14_One)'}
     ELSE {})
    \cup {c \in {"Files"} : ~FilesMatch(e)}
-   \cup {c \in {"NoDirNeverWritten"} :
-            \/ ~(P!C14_NoDirNeverWritten)'
-            \/ /\ e.seen /\ e.op \in {"skip", "end", "blocked", "crash", "exit"}
-               /\ \E t \in Tasks : mem[t].present /\ ~mem[t].dir /\ ObsFile(e.files[t]) # file'[t]}
+   \cup {c \in {"NoDirNeverWritten"} : ~(P!C14_NoDirNeverWritten)' \/ ~NoDirUntouched(e)}
 
-TInit == P!Init /\ i = 1 /\ TLCSet(1, {})
+TInit == /\ P!Init /\ i = 1 /\ sync = FALSE
+         /\ ofile = [t \in Tasks |-> P!Blank("absent")]
+         /\ TLCSet(1, {}) /\ TLCSet(2, 1)
 
-TStep == /\ i <= NEvents
-         /\ i' = i + 1
-         /\ LET e == Events[i] IN
-            \/ /\ ENABLED Apply(e)
-               /\ Apply(e)
-               /\ Record({<<e.tid, e.step, c>> : c \in Failing(e)})
-            \/ /\ ~ENABLED Apply(e)        \* the log does not follow the specification at all
-               /\ Record({<<e.tid, e.step, "NotEnabled">>})
-               /\ UNCHANGED <<mem, file, queue, w, nver, nfault, ncrash, lastRead, lastOne, lastFull, intact, act>>
+(* the model's files are replaced by the observed ones; `intact` keeps its meaning (the file holds the
+   last completely written entry) *)
+SyncStep ==
+   /\ sync /\ sync' = FALSE
+   /\ file' = ofile
+   /\ intact' = [t \in Tasks |-> /\ lastFull[t].present
+                                 /\ ofile[t] = P!FileOf("full", lastFull[t].status, lastFull[t].ver)]
+   /\ UNCHANGED <<mem, queue, w, nver, nfault, ncrash, lastRead, lastOne, lastFull, act, i, ofile>>
+
+ApplyStep ==
+   /\ ~sync /\ i <= NEvents
+   /\ i' = i + 1 /\ TLCSet(2, i + 1)
+   /\ LET e == Events[i] IN
+      /\ ofile' = IF e.seen THEN ObsFiles(e) ELSE ofile
+      /\ \/ /\ ENABLED Apply(e)
+            /\ Apply(e)
+            /\ Record({<<e.tid, e.step, c>> : c \in Failing(e)})
+            /\ sync' = ~FilesMatch(e)
+         \/ /\ ~ENABLED Apply(e)        \* the log does not follow the specification at all
+            /\ Record({<<e.tid, e.step, "NotEnabled">>})
+            /\ sync' = (e.seen /\ w = None /\ ObsFiles(e) # file)
+            /\ UNCHANGED pvars
+
+TStep == SyncStep \/ ApplyStep
 TSpec == TInit /\ [][TStep]_tvars
 
-HistoryOK == P!HistoryOK
-
-Post == /\ TLCGet("stats").diameter = NEvents + 1
+(* every event of the log was consumed *)
+Post == /\ TLCGet(2) = NEvents + 1
         /\ JsonSerialize(IOEnv.VERIF_OUT, [bad |-> TLCGet(1)])
 =============================================================================
